@@ -1,4 +1,5 @@
 import LapyVerif.Props.C18
+import LapyVerif.Bridge.Spectral2
 /- axiom audit of C18 -/
 #print axioms LapyVerif.Props.C18.invStereo_unit
 #print axioms LapyVerif.Props.C18.invStereoSouth_unit
@@ -27,3 +28,4 @@ import LapyVerif.Props.C18
 #print axioms LapyVerif.Props.C18.eulerGuard_spec
 #print axioms LapyVerif.Props.C18.fixnum_spec
 #print axioms LapyVerif.Props.C18.fixnum_eq
+#print axioms LapyVerif.Bridge.misc_invstereo
